@@ -231,7 +231,132 @@ func firstObject(b *j5sgen.Bundle) (*j5sgen.Package, *j5sgen.File, *j5sgen.Objec
 	return nil, nil, nil
 }
 
+// fieldSlots lists every place of a bundle that holds fields, with a label: a
+// faulty field may sit in any of them.
+type fieldSlot struct {
+	where  string
+	fields *[]*j5sgen.Field
+	oneof  bool // options of a oneof: only object-typed members are grammatical
+}
+
+func fieldSlots(b *j5sgen.Bundle) []fieldSlot {
+	var out []fieldSlot
+	var inline func(where string, fs *[]*j5sgen.Field)
+	inline = func(where string, fs *[]*j5sgen.Field) {
+		for _, f := range *fs {
+			t := f.Type
+			if t.Items != nil {
+				t = t.Items
+			}
+			switch {
+			case t.InlineObject != nil:
+				out = append(out, fieldSlot{where: "inline-object", fields: &t.InlineObject.Fields})
+				inline(where, &t.InlineObject.Fields)
+			case t.InlineOneof != nil:
+				out = append(out, fieldSlot{where: "inline-oneof", fields: &t.InlineOneof.Options, oneof: true})
+			}
+		}
+	}
+	for _, p := range b.Packages {
+		for _, f := range p.Files {
+			for _, d := range f.Decls {
+				switch {
+				case d.Object != nil:
+					out = append(out, fieldSlot{where: "object", fields: &d.Object.Fields})
+					inline("object", &d.Object.Fields)
+					for _, n := range d.Object.Nested {
+						out = append(out, fieldSlot{where: "nested-object", fields: &n.Fields})
+					}
+				case d.Oneof != nil:
+					out = append(out, fieldSlot{where: "oneof", fields: &d.Oneof.Options, oneof: true})
+				case d.Service != nil:
+					for _, m := range d.Service.Methods {
+						out = append(out, fieldSlot{where: "request", fields: &m.Request})
+						if !m.NoResponse {
+							out = append(out, fieldSlot{where: "response", fields: &m.Response})
+						}
+					}
+				case d.Topic != nil:
+					for _, m := range d.Topic.Messages {
+						out = append(out, fieldSlot{where: "topic-message", fields: &m.Fields})
+					}
+					if d.Topic.Request != nil {
+						out = append(out, fieldSlot{where: "topic-request", fields: &d.Topic.Request.Fields})
+						out = append(out, fieldSlot{where: "topic-reply", fields: &d.Topic.Reply.Fields})
+					}
+				case d.Entity != nil:
+					out = append(out, fieldSlot{where: "entity-data", fields: &d.Entity.Data})
+					for _, ev := range d.Entity.Events {
+						out = append(out, fieldSlot{where: "entity-event", fields: &ev.Fields})
+					}
+					for _, sm := range d.Entity.Summaries {
+						out = append(out, fieldSlot{where: "entity-summary", fields: &sm.Fields})
+					}
+				}
+			}
+		}
+	}
+	return out
+}
+
+// injectFaultyField puts one field with a semantic error into a random field slot.
+func injectFaultyField(t *rapid.T, b *j5sgen.Bundle) string {
+	slots := fieldSlots(b)
+	if len(slots) == 0 {
+		return ""
+	}
+	sl := slots[rapid.IntRange(0, len(slots)-1).Draw(t, "slot")]
+	wrap := func(ty *j5sgen.Type) *j5sgen.Type {
+		switch rapid.IntRange(0, 3).Draw(t, "faultcontainer") {
+		case 0:
+			return &j5sgen.Type{Kind: "array", Items: ty}
+		case 1:
+			return &j5sgen.Type{Kind: "map", Items: ty}
+		}
+		return ty
+	}
+	var fl *j5sgen.Field
+	var what string
+	k := rapid.IntRange(0, 5).Draw(t, "faultkind")
+	if sl.oneof && k > 2 {
+		k = k % 3
+	}
+	switch k {
+	case 0:
+		fl, what = &j5sgen.Field{Name: "ghost", Type: wrap(&j5sgen.Type{Kind: "object", Ref: &j5sgen.Ref{Name: "NoSuchType"}})}, "unknown-object"
+	case 1:
+		fl, what = &j5sgen.Field{Name: "ghost", Type: wrap(&j5sgen.Type{Kind: "object", Ref: &j5sgen.Ref{Package: "zeta.eta.v1", Name: "Elsewhere", Spelling: "full"}})}, "unimported-object"
+	case 2:
+		// an enum referenced as an object / an object as an enum: whichever the bundle has
+		fl, what = &j5sgen.Field{Name: "ghost", Type: wrap(&j5sgen.Type{Kind: "object", Ref: &j5sgen.Ref{Name: "NoSuchType"}, Flatten: true})}, "unknown-object-flattened"
+	case 3:
+		fl, what = &j5sgen.Field{Name: "ghost", Type: wrap(&j5sgen.Type{Kind: "enum", Ref: &j5sgen.Ref{Name: "NoSuchEnum"}})}, "unknown-enum"
+	case 4:
+		fl, what = &j5sgen.Field{Name: "ghost", Type: wrap(&j5sgen.Type{Kind: "oneof", Ref: &j5sgen.Ref{Name: "NoSuchOneof"}})}, "unknown-oneof"
+	default:
+		fl = &j5sgen.Field{Name: "ghost", Type: &j5sgen.Type{Kind: "string"}}
+		fl.Required, fl.Optional, fl.Style = true, true, 1
+		what = "required-and-optional"
+	}
+	if what == "unknown-object-flattened" && fl.Type.Kind != "object" {
+		fl.Type.Items.Flatten = false
+		what = "unknown-object"
+	}
+	// not always last: the walker must survive the fault and go on
+	at := rapid.IntRange(0, len(*sl.fields)).Draw(t, "faultat")
+	fs := append([]*j5sgen.Field{}, (*sl.fields)[:at]...)
+	fs = append(fs, fl)
+	fs = append(fs, (*sl.fields)[at:]...)
+	*sl.fields = fs
+	return "field:" + what + "@" + sl.where
+}
+
 func injectSemantic(t *rapid.T, b *j5sgen.Bundle) string {
+	if rapid.Bool().Draw(t, "faultyfield") {
+		if w := injectFaultyField(t, b); w != "" {
+			return w
+		}
+	}
 	p, f, obj := firstObject(b)
 	if obj == nil {
 		return ""
@@ -285,6 +410,7 @@ func TestSemantic(t *testing.T) {
 	rapid.Check(t, func(t *rapid.T) {
 		o := j5sgen.DefaultOpts()
 		o.Mask = mask(r)
+		o.Entities = true
 		b, _ := j5sgen.Draw(t, o)
 		what := injectSemantic(t, b)
 		if what == "" {
@@ -292,7 +418,11 @@ func TestSemantic(t *testing.T) {
 			return
 		}
 		c := srcCase{Files: b.Render(), Valid: false, What: what}
-		r.Eval(true, vf.Hash(c.Files), "semantic:"+what)
+		cls := []string{"semantic:" + what}
+		if i := strings.Index(what, "@"); i > 0 {
+			cls = []string{"semantic:" + what[:i], "semantic-at:" + what[i+1:]}
+		}
+		r.Eval(true, vf.Hash(c.Files), cls...)
 		if r.WantSample() {
 			r.Sample(map[string]any{"error": what, "files": len(c.Files)})
 		}
